@@ -24,7 +24,7 @@ CONSTANTS Snaps,      \* subset of {0, 1}: node without / with Config.SnapshotPa
           LowT, HighT,\* Lamport times carried by incoming messages
           NC,         \* event contents 1..NC (a <<name, payload>> pair each)
           QIds,       \* query ids of incoming queries (small ints; local queries get 100, 101, ..)
-          Kinds,      \* enabled inputs: subset of {"ev","qry","merge","uev","lq","restart"}
+          Kinds,      \* enabled inputs: subset of {"ev","qry","merge","join","uev","lq","restart"}
           PPSlots,    \* push/pull: at most this many buffer slots ...
           PPK,        \* ... with at most this many events each
           LocalMax,   \* at most this many local UserEvent/Query calls per behaviour
@@ -122,6 +122,7 @@ vars == <<N, rst, obs, last, steps, M>>
 ObsOf(n, dl, rb, r) ==
   [ ec |-> n.ec, emin |-> n.emin, ebuf |-> [i \in 1..n.b |-> n.ebuf[i - 1]],
     qc |-> n.qc, qmin |-> n.qmin, qbuf |-> [i \in 1..n.b |-> n.qbuf[i - 1]],
+    ji |-> 0,      \* eventJoinIgnore as read after the call: only ever true inside Serf.Join(ignoreOld = true)
     dl |-> dl, rb |-> rb, re |-> r[1], rq |-> r[2] ]
 
 ------------------------------------------------------------------------------
@@ -132,7 +133,7 @@ Kind(k, s) == { e \in s : e[1] = k }
 RecvOf(act, post) ==                        \* the messages this call handed to the node
   CASE act.a = "ev" -> { <<1, act.lt, act.k>> }
     [] act.a = "qry" -> { <<2, act.lt, act.id>> }
-    [] act.a = "merge" -> { <<1, e[1], e[2]>> : e \in Range(Flat(act.evs)) }
+    [] act.a \in {"merge", "join"} -> { <<1, e[1], e[2]>> : e \in Range(Flat(act.evs)) }
     [] act.a \in {"uev", "lq"} -> Range(post.rb)
     [] OTHER -> {}
 
@@ -144,12 +145,12 @@ AtMostOnce(m, post, k) == /\ Kind(k, Range(post.dl)) \cap m.delv = {}
 \* event clock), inside the window as of the observed clock before the call (gossip) resp. after it (state
 \* sync: the clock only grows during the call, so this is the weakest reading) => delivered in this call.
 CutAfter(m, act) ==
-  IF act.a = "merge" /\ act.join = 1 /\ act.ign = 1 /\ Lt(m.cut, act.elt) THEN act.elt ELSE m.cut
+  IF act.a \in {"merge", "join"} /\ act.join = 1 /\ act.ign = 1 /\ Lt(m.cut, act.elt) THEN act.elt ELSE m.cut
 FreshDelivered(m, act, pre, post) ==
   /\ act.a = "ev" =>
        LET e == <<1, act.lt, act.k>> IN
        (e \notin m.rcv /\ ~Lt(act.lt, m.cut) /\ ~TooOld(Len(pre.ebuf), pre.ec, act.lt)) => e \in Range(post.dl)
-  /\ act.a = "merge" =>
+  /\ act.a \in {"merge", "join"} =>
        \A x \in Range(Flat(act.evs)) :
           LET e == <<1, x[1], x[2]>> IN
           (e \notin m.rcv /\ ~Lt(x[1], CutAfter(m, act)) /\ ~TooOld(Len(post.ebuf), post.ec, x[1])) => e \in Range(post.dl)
@@ -160,7 +161,7 @@ FreshDelivered(m, act, pre, post) ==
 MsgOf(act) == IF act.a = "ev" THEN <<1, act.lt, act.k>> ELSE <<2, act.lt, act.id>>
 RebroadcastOnce(m, act, post, a) ==
   (act.a = a /\ MsgOf(act) \in m.rbs) => MsgOf(act) \notin Range(post.rb)
-MergeSilent(act, post) == act.a = "merge" => post.rb = <<>>
+MergeSilent(act, post) == act.a \in {"merge", "join"} => post.rb = <<>>   \* (join: user events / queries; the join intent is not listed)
 OnlyEcho(act, post) == act.a \in {"ev", "qry"} => (Len(post.rb) <= 1 /\ Range(post.rb) \subseteq {MsgOf(act)})
 
 \* C14: after a restart nothing at or below the newest recorded time is delivered
@@ -220,6 +221,18 @@ Qry(lt, id, nb, flt) ==
 Merge(pp, join, ign) ==
   Apply(MergeStep(N, pp, join, ign),
         [a |-> "merge", elt |-> pp.elt, qlt |-> pp.qlt, evs |-> pp.evs, join |-> join, ign |-> ign], rst)
+\* Serf.Join([peer], ignoreOld): memberlist's push/pull hands the peer's state to MergeRemoteState with isJoin = TRUE while
+\* eventJoinIgnore = ignoreOld; the flag is false again when Join returns (ObsOf.ji).  The peer is a real node, so what it
+\* sends is its own state: clocks >= 1, buffer slots in ascending order of time, all below its event clock, none at MAX.
+JoinPPOk(pp) ==
+  /\ pp.elt # 0 /\ pp.qlt # 0
+  /\ \A i \in DOMAIN pp.evs : /\ Lt(pp.evs[i].lt, pp.elt) /\ pp.evs[i].lt # MAX
+                               /\ \A j \in DOMAIN pp.evs : i < j => Lt(pp.evs[i].lt, pp.evs[j].lt)
+                               /\ \A a, c \in DOMAIN pp.evs[i].ks : a # c => pp.evs[i].ks[a] # pp.evs[i].ks[c]
+Join(pp, ign) ==
+  /\ JoinPPOk(pp)
+  /\ Apply(MergeStep(N, pp, 1, ign),
+           [a |-> "join", elt |-> pp.elt, qlt |-> pp.qlt, evs |-> pp.evs, join |-> 1, ign |-> ign], rst)
 Uev(k) == N.nloc < LocalMax /\ Apply(UevStep(N, k), [a |-> "uev", k |-> k], rst)
 Lq     == N.nloc < LocalMax /\ Apply(LqStep(N), [a |-> "lq"], rst)
 \* graceful (Shutdown flushes everything) or crash (the file holds some prefix of what was recorded)
@@ -242,6 +255,7 @@ Next ==
   /\ \/ "ev" \in Kinds /\ \E lt \in MsgT, k \in Contents : Ev(lt, k)
      \/ "qry" \in Kinds /\ \E lt \in MsgT, id \in QIds, nb \in {0, 1}, flt \in {0, 1} : Qry(lt, id, nb, flt)
      \/ "merge" \in Kinds /\ \E pp \in PPs, join \in {0, 1}, ign \in {0, 1} : (join = 0 => ign = 0) /\ Merge(pp, join, ign)
+     \/ "join" \in Kinds /\ \E pp \in PPs, ign \in {0, 1} : Join(pp, ign)
      \/ "uev" \in Kinds /\ \E k \in Contents : Uev(k)
      \/ "lq" \in Kinds /\ Lq
      \/ "restart" \in Kinds /\ \E crash \in {0, 1}, re \in -1..MAX, rq \in -1..MAX : Restart(crash, re, rq)
